@@ -177,7 +177,7 @@ prop("C15", quick={"runs": 9000}, thorough={"runs": 100000000, "budget_s": 600},
      "followed by a fault-free retry (the same labels in one call, or one call per label); a third run AddLabels / AddCache / InvalidateByLabels / writes concurrently; every 12th run injects the failure while "
      "other tasks AddLabels concurrently and ends with a fault-free sweep over all labels.",
      rules=["C15.R1 labelled keys absent after nil", "C15.R2 unlabelled keys untouched", "C15.R3 count = entries really removed", "C15.R4 failure returned, no panic", "C15.R5 retry removes every labelled key"],
-     probes=["invalidate_ok", "invalidate_with_deleter_failure", "retry_after_failure", "retry_label_by_label", "concurrent_invalidate", "sweep_after_concurrent_failure"])
+     probes=["invalidate_ok", "invalidate_with_deleter_failure", "retry_after_failure", "retry_label_by_label", "concurrent_invalidate", "sweep_after_concurrent_failure", "sweep_judged_rewritten_and_relabelled_key"])
 prop("C17", quick={"runs": 12000}, thorough={"runs": 100000000, "budget_s": 600},
      rule="1-8 client tasks call Invalidate 1-4 times each with sleeps around SkipInterval (-1ns, exactly, +1ns) and a context that is live, already cancelled, past its deadline, or cancelled by the first callback; 0-5 callbacks yield / sleep simulated time while the "
      "Invalidator's mutex is held (cooperative lock table). Non-trivial: at least two calls; distinct = distinct (scenario, schedule signature).",
